@@ -1,4 +1,5 @@
 import LSModel.Api
+import LSModel.ApiGen
 import LSModel.Num
 import LSModel.Decode
 /-!
@@ -96,6 +97,8 @@ structure DState where
   w : World := {}
   faults : List Nat := []
   limit : Nat := 1 <<< 20
+  /-- `--gen`: run the public calls over the *translated* repr.rs (`stepG`, LSModel/ApiGen.lean) -/
+  gen : Bool := false
 
 def DState.rf (s : DState) : Refuse := fun idx size => s.faults.contains idx || decide (size > s.limit)
 
@@ -169,7 +172,7 @@ def stepLine (s : DState) (line : String) : DState × Option String :=
   let t := (line.trimAscii.toString.splitOn " ").filter (· ≠ "")
   match t with
   | [] => (s, none)
-  | "reset" :: _ => ({ w := { statics := s.w.statics } }, none)
+  | "reset" :: _ => ({ w := { statics := s.w.statics }, gen := s.gen }, none)
   | ["static", sid, x] =>
     match sid.toNat?, unhex x with
     | some k, some b =>
@@ -187,10 +190,11 @@ def stepLine (s : DState) (line : String) : DState × Option String :=
     | none => (s, some "bad-control")
   | _ =>
     if line.startsWith "#" then (s, none) else
+    let stp := if s.gen then stepG else step
     let res : World × Out := match parseOp t with
-      | some op => step s.rf s.w op
+      | some op => stp s.rf s.w op
       | none => match parseOp2 t with
-        | some op => step s.rf s.w op
+        | some op => stp s.rf s.w op
         | none => (s.w, .bad)
     let (w1, out) := res
     -- a refused request consumes its one-shot fault
@@ -207,7 +211,7 @@ partial def loop (h : IO.FS.Stream) (out : IO.FS.Stream) (s : DState) : IO Unit 
   | none => pure ()
   loop h out s'
 
-def main : IO Unit := do
+def main (args : List String) : IO Unit := do
   let stdin ← IO.getStdin
   let stdout ← IO.getStdout
-  loop stdin stdout {}
+  loop stdin stdout { gen := args.contains "--gen" }
